@@ -239,7 +239,12 @@ class Degrees:
                 if env.get(t.value.id) == POLY and _is_deg(v) and not self._is_pose_slot(t):
                     env[t.value.id] = v
             else:
-                if not isinstance(v, tuple):
+                # stores through an attribute (self.x[:] = v) are not checked: an attribute's degree is only a guess from its name
+                # (Solution.search_direction holds a POINT of the Minkowski difference)
+                base = t.value
+                while isinstance(base, ast.Subscript):
+                    base = base.value
+                if not isinstance(v, tuple) and isinstance(base, ast.Name):
                     self._same(cur, v, f, st, "store")
         elif isinstance(t, ast.Attribute):
             pass
